@@ -59,6 +59,71 @@ type selectionPlan struct {
 	// fragmentGates holds the inclusion condition of every named
 	// fragment that was first spread under a variable-driven condition.
 	fragmentGates map[string]*fragmentGate
+
+	// trace records the selections in the order they were collected, with
+	// each one's own condition, so that a request can be given the field
+	// order of ITS included occurrences (see fieldsInOrder). conditional
+	// is set when some recorded condition depends on variables; collecting
+	// and fragmentTraces are only used while the plan is being built.
+	trace          []collectStep
+	conditional    bool
+	collecting     *[]collectStep
+	fragmentTraces map[string]*fragmentTrace
+}
+
+// collectStep is one selection met while collecting: a field occurrence,
+// or a spread of a named fragment (whose own selections are recorded once,
+// at its first spread, and shared by every later spread).
+type collectStep struct {
+	field  *fieldPlan
+	spread *fragmentTrace
+	cond   func(map[string]interface{}) bool // nil ⇒ unconditional
+}
+
+type fragmentTrace struct {
+	steps []collectStep
+}
+
+func (sp *selectionPlan) record(step collectStep) {
+	if sp.collecting == nil {
+		return
+	}
+	if step.cond != nil {
+		sp.conditional = true
+	}
+	*sp.collecting = append(*sp.collecting, step)
+}
+
+// fieldsInOrder replays the collection for one request: conditions are
+// evaluated against the request's variables, a named fragment is entered at
+// its first INCLUDED spread, and a response key takes the position of its
+// first included occurrence. The result is the included fields in the order
+// the GraphQL CollectFields algorithm gives them.
+func (sp *selectionPlan) fieldsInOrder(vars map[string]interface{}) []*fieldPlan {
+	ordered := make([]*fieldPlan, 0, len(sp.fields))
+	placed := make(map[*fieldPlan]bool, len(sp.fields))
+	entered := map[*fragmentTrace]bool{}
+	var replay func(steps []collectStep)
+	replay = func(steps []collectStep) {
+		for _, step := range steps {
+			if step.cond != nil && !step.cond(vars) {
+				continue
+			}
+			if step.field != nil {
+				if !placed[step.field] {
+					placed[step.field] = true
+					ordered = append(ordered, step.field)
+				}
+				continue
+			}
+			if step.spread != nil && !entered[step.spread] {
+				entered[step.spread] = true
+				replay(step.spread.steps)
+			}
+		}
+	}
+	replay(sp.trace)
+	return ordered
 }
 
 // fragmentGate decides whether the fields a named fragment contributed
@@ -258,7 +323,9 @@ func (p *Plan) planSelectionSet(parentType *Object, selectionSet *ast.SelectionS
 	}
 	sp := &selectionPlan{parentType: parentType}
 	keyed := map[string]int{}
+	sp.collecting = &sp.trace
 	p.collectInto(parentType, selectionSet, visitedFragmentNames, sp, keyed, nil, nil)
+	sp.collecting, sp.fragmentTraces = nil, nil
 	if len(sp.fields) == 0 {
 		return nil
 	}
@@ -334,6 +401,7 @@ func (p *Plan) abstractAlternative(fp *fieldPlan, runtimeType *Object) *selectio
 // collectFields loop would produce.
 func (p *Plan) planMergedSelectionsForType(parentType *Object, fieldASTs []*ast.Field, astPredicates []func(map[string]interface{}) bool) *selectionPlan {
 	sp := &selectionPlan{parentType: parentType}
+	sp.collecting = &sp.trace
 	keyed := map[string]int{}
 	visited := map[string]bool{}
 	for i, f := range fieldASTs {
@@ -348,6 +416,7 @@ func (p *Plan) planMergedSelectionsForType(parentType *Object, fieldASTs []*ast.
 		}
 		p.collectInto(parentType, f.SelectionSet, visited, sp, keyed, occurrencePred, nil)
 	}
+	sp.collecting, sp.fragmentTraces = nil, nil
 	if len(sp.fields) == 0 {
 		return nil
 	}
@@ -405,6 +474,7 @@ func (p *Plan) collectInto(parentType *Object, selectionSet *ast.SelectionSet, v
 				merged.astPredicates = append(merged.astPredicates, occurrencePred)
 				// The response key is present when any of its occurrences is included.
 				merged.skipPredicate = orPredicates(merged.skipPredicate, occurrencePred)
+				sp.record(collectStep{field: merged, cond: andPredicates(parentPred, pred)})
 				continue
 			}
 			fieldName := ""
@@ -432,6 +502,7 @@ func (p *Plan) collectInto(parentType *Object, selectionSet *ast.SelectionSet, v
 			}
 			keyed[responseKey] = len(sp.fields)
 			sp.fields = append(sp.fields, fp)
+			sp.record(collectStep{field: fp, cond: andPredicates(parentPred, pred)})
 
 		case *ast.InlineFragment:
 			pred, alwaysSkip := planDirectives(sel.Directives)
@@ -461,6 +532,9 @@ func (p *Plan) collectInto(parentType *Object, selectionSet *ast.SelectionSet, v
 				if gate := sp.fragmentGates[fragName]; gate != nil {
 					gate.add(container, spreadPred)
 				}
+				if trace := sp.fragmentTraces[fragName]; trace != nil {
+					sp.record(collectStep{spread: trace, cond: spreadPred})
+				}
 				continue
 			}
 			frag, ok := p.fragments[fragName]
@@ -485,7 +559,18 @@ func (p *Plan) collectInto(parentType *Object, selectionSet *ast.SelectionSet, v
 					}
 					sp.fragmentGates[fragName] = gate
 				}
+				trace := &fragmentTrace{}
+				if sp.fragmentTraces == nil {
+					sp.fragmentTraces = map[string]*fragmentTrace{}
+				}
+				sp.fragmentTraces[fragName] = trace
+				sp.record(collectStep{spread: trace, cond: spreadPred})
+				outer := sp.collecting
+				if outer != nil {
+					sp.collecting = &trace.steps
+				}
 				p.collectInto(parentType, fragDef.GetSelectionSet(), visitedFragmentNames, sp, keyed, nil, gate)
+				sp.collecting = outer
 			}
 		}
 	}
@@ -811,7 +896,13 @@ func executePlannedSelection(eCtx *executionContext, sp *selectionPlan, source i
 		source = map[string]interface{}{}
 	}
 	finalResults := make(map[string]interface{}, len(sp.fields))
-	for _, fp := range sp.fields {
+	fields := sp.fields
+	if sp.conditional {
+		// Variable-driven conditions can change which occurrence of a
+		// response key (or which spread of a fragment) comes first.
+		fields = sp.fieldsInOrder(eCtx.VariableValues)
+	}
+	for _, fp := range fields {
 		if fp.skipPredicate != nil && !fp.skipPredicate(eCtx.VariableValues) {
 			continue
 		}
